@@ -1,7 +1,7 @@
 (** C06 — reference chains never exceed the configured maximum depth or window.
     Statements and [Print Assumptions] only. *)
 From WG Require Import Base.Prelude Codes.Codes BV.Model BV.RefSel BV.SelStatements
-  BV.GreedyFacts BV.ZuckBase BV.ZuckValid BV.ZuckDP BV.ZuckReadd BV.ZuckFacts.
+  BV.GreedyFacts BV.GreedyRunFacts BV.ZuckBase BV.ZuckValid BV.ZuckDP BV.ZuckReadd BV.ZuckFacts.
 Local Open Scope N_scope.
 
 (** greedy selector: every chosen reference is inside the window, not before the first
@@ -41,3 +41,53 @@ Example C06_nonvacuous :
   let g := [[10;20;30;40;50;60]; [10;20;30;40;50;61]; [10;20;30;40;50;62]; [10;20;30;40;50;63]] in
   depths (greedy_sel p cs 0 g) = [0; 1; 2; 2] /\ depths (zuck_sel p cs 10 0 g) = [0; 1; 2; 2].
 Proof. vm_compute. split; reflexivity. Qed.
+
+(* ---- tie-break-agnostic greedy ---- *)
+
+(** [greedy_run_ok p cs start g sel]: [sel] is an output of the greedy rule of [BvComp::push]
+    under SOME tie-break among admissible candidates of equal minimal cost (every node takes
+    either no reference, no admissible candidate being strictly cheaper than the copy-less
+    encoding, or an admissible candidate strictly cheaper than the copy-less encoding and of
+    minimal cost).  The deterministic model (nearest minimal candidate) is one such run *)
+Theorem C06_greedy_sel_run_ok : S_greedy_sel_run_ok.
+Proof. exact greedy_sel_run_ok. Qed.
+Print Assumptions C06_greedy_sel_run_ok.
+
+(** every run only picks references inside the window, inside the chunk, at non-empty lists *)
+Theorem C06_greedy_run_window_chunk : S_greedy_run_valid.
+Proof. exact greedy_run_valid. Qed.
+Print Assumptions C06_greedy_run_window_chunk.
+
+(** ... and every reference chain of every run has depth at most max_ref *)
+Theorem C06_greedy_run_depth : S_greedy_run_depth.
+Proof. exact greedy_run_depth. Qed.
+Print Assumptions C06_greedy_run_depth.
+
+(** what the checker accepts at each node, stated without the scan: no reference iff no
+    admissible candidate is strictly cheaper than the copy-less encoding; distance [d >= 1] iff
+    it is admissible, strictly cheaper than the copy-less encoding and no admissible candidate
+    is strictly cheaper than it *)
+Theorem C06_greedy_choice_ok_spec : S_greedy_choice_ok_spec.
+Proof. exact greedy_choice_ok_spec. Qed.
+Print Assumptions C06_greedy_choice_ok_spec.
+
+(** a genuine tie (with the gamma code, distances 1 and 2 cost the same, and nodes 0 and 1
+    have the same list): two different selections are runs, the second one not being the
+    model's; its choice also changes which candidates are admissible afterwards.  Taking a
+    dearer candidate (distance 2 for the last node, 29 bits against 9), or no reference
+    where one is strictly cheaper, is not a run. *)
+Example C06_run_tie :
+  let p := mkParams 3 (Some 2) 0 in
+  let cs := mkCodes Gamma Gamma Gamma Gamma Gamma in
+  let g := [[10;20;30;40;50]; [10;20;30;40;50]; [10;20;30;40;50]; [10;20;30;40;51];
+            [10;20;30;40;51]] in
+  greedy_sel p cs 0 g = [0; 1; 1; 2; 3] /\
+  greedy_run_ok p cs 0 g [0; 1; 1; 2; 3] = true /\
+  greedy_run_ok p cs 0 g [0; 1; 2; 1; 2] = true /\
+  greedy_run_ok p cs 0 g [0; 1; 2; 2; 2] = true /\
+  depths [0; 1; 2; 1; 2] = [0; 1; 1; 2; 2] /\
+  greedy_run_ok p cs 0 g [0; 1; 1; 2; 2] = false /\
+  greedy_run_ok p cs 0 g [0; 1; 2; 1; 3] = false /\
+  greedy_run_ok p cs 0 g [0; 1; 1; 2; 0] = false /\
+  greedy_run_ok p cs 0 g [0; 1; 1; 2] = false.
+Proof. vm_compute. repeat split; reflexivity. Qed.
